@@ -2704,6 +2704,10 @@ func (col *DatabaseCollectionWithUser) documentUpdateFunc(
 	createNewRevIDSkipped bool,
 	err error) {
 
+	// Sequences that are already unused are handed back on every return path, so that the caller can release them if
+	// the update fails.
+	retUnusedSequences = unusedSequences
+
 	err = validateExistingDoc(doc, allowImport, docExists)
 	if err != nil {
 		return
@@ -2788,13 +2792,21 @@ func (col *DatabaseCollectionWithUser) documentUpdateFunc(
 
 	col.backupAncestorRevs(ctx, doc, newDoc.RevID, oldChannels)
 
-	unusedSequences, err = col.assignSequence(ctx, previousDocSequenceIn, doc, unusedSequences)
+	var updatedUnusedSequences []uint64
+	updatedUnusedSequences, err = col.assignSequence(ctx, previousDocSequenceIn, doc, unusedSequences)
 	if err != nil {
 		if errors.Is(err, base.ErrMaxSequenceReleasedExceeded) {
 			base.ErrorfCtx(ctx, "Doc %s / %s had a much larger sequence (%d) than the current sequence number. Document update will be cancelled, since we don't want to allocate sequences to fill a gap this large. This may indicate document metadata being migrated between databases where it should've been stripped and re-imported.", base.UD(newDoc.ID), prevCurrentRev, doc.Sequence)
 		}
 		return
 	}
+	// A sequence is now assigned to the doc. If a later step fails, hand a newly allocated sequence back along with the
+	// unused ones so that the caller releases it (the caller still holds previousDocSequenceIn itself).
+	defer func() {
+		if err != nil && doc.Sequence != previousDocSequenceIn {
+			retUnusedSequences = append(unusedSequences[:len(unusedSequences):len(unusedSequences)], doc.Sequence)
+		}
+	}()
 
 	// The callback has updated the HLV for mutations coming from CBL. Set the current version (to the
 	// pre-generated value for new-version events) before updateChannels, which needs it for removals.
@@ -2839,7 +2851,7 @@ func (col *DatabaseCollectionWithUser) documentUpdateFunc(
 
 	doc.ClusterUUID = col.serverUUID()
 	doc.TimeSaved = time.Now()
-	return updatedExpiry, newRevID, newDoc, oldBodyJSON, unusedSequences, changedAccessPrincipals, changedRoleAccessUsers, createNewRevIDSkipped, err
+	return updatedExpiry, newRevID, newDoc, oldBodyJSON, updatedUnusedSequences, changedAccessPrincipals, changedRoleAccessUsers, createNewRevIDSkipped, err
 }
 
 // Function type for the callback passed into updateAndReturnDoc
